@@ -107,10 +107,18 @@ for it in range(n):
             err = 'a second fit on the same model gives %r, the first gave %r' % (again, clusters)
     if err:
         report('hierarchical', series, desc, err, merges=merges)
-    # tree variant
+    # tree variant (on its own model, or wrapped around a model that carries the user's weight / order hooks)
     try:
-        tree = H.HierarchicalTree(dists_fun=dists_fun, dists_options=dict(opts), show_progress=False)
+        if hook == 'none':
+            tree = H.HierarchicalTree(dists_fun=dists_fun, dists_options=dict(opts), show_progress=False)
+        else:
+            inner = H.Hierarchical(dists_fun, dict(opts), show_progress=False,
+                                   merge_hook=H.Hooks.create_weighthook([1] * k, series) if hook == 'weights' else None,
+                                   order_hook=H.Hooks.create_orderhook([1] * k) if hook == 'order' else None)
+            tree = H.HierarchicalTree(inner)
         tree.fit(series)
+        if any(a is None or b is None for a, b, _, _ in tree.linkage):
+            raise ValueError('linkage row with a missing child: %r' % ([tuple(x) for x in tree.linkage][:4],))
         link = [(int(a), int(b), float(d)) for a, b, d, _ in tree.linkage]
         evaluations += 1
         err = None
